@@ -55,13 +55,17 @@ def origins(rng, dt, k, n=8):
     for unit in (dt, dt, 60, 1):
         m = rng.randint(18, 24) if unit == dt else (rng.randint(23, 26) if unit == 60 else rng.randint(29, 31))
         out.append((unit * 2 ** m) // dt * dt - rng.randint(1, max(1, n - 2)) * dt)
+    # records from before 1970 (long-term sites go back to the 1950s): negative epochs, and one straddling 1970
+    out.append(-(rng.randint(10**7, 6 * 10**8) // dt * dt))
+    if rng.random() < 0.5:
+        out.append(-rng.randint(1, max(1, n - 2)) * dt)
     while len(out) < k:
-        out.append(rng.randint(0, 4102444800) // dt * dt)
+        out.append(rng.randint(-631152000, 4102444800) // dt * dt)
     return out[:k]
 
 
 def run(ctx):
-    nrec, k = (30, 10) if ctx.tier == "quick" else (300, 40)
+    nrec, k = (30, 12) if ctx.tier == "quick" else (300, 40)
     rng = ctx.rng
     curves_across_origins(ctx, 4 if ctx.tier == "quick" else 60, 3 if ctx.tier == "quick" else 8)
     ob_corr = "flags / intervals / pairing of `spowtd classify` = model classifyAll at Float, at every origin"
@@ -167,7 +171,7 @@ def curves_across_origins(ctx, n, k):
         zstep = rng.choice([1.0, 0.5, 2.0])
         base = None
         first_fail = None
-        runs = [(t0, "UTC") for t0 in origins(rng, tr.dt, k)] + [(86400 * 15000 // tr.dt * tr.dt, "Etc/GMT%+d" % rng.choice([-11, -3, 4, 9]))]
+        runs = [(t0, "UTC") for t0 in [0] + rng.sample(origins(rng, tr.dt, 12)[1:], k)] + [(86400 * 15000 // tr.dt * tr.dt, "Etc/GMT%+d" % rng.choice([-11, -3, 4, 9]))]
         for t0, tz in runs:
             tr.t0 = t0
             w = P.run_workflow(ctx, tr.rows(), tr.s, tr.j, zstep, tz=tz)
